@@ -86,6 +86,24 @@ func lockGuardSuffix() string {
 			}
 			scr.Fini()
 		}
+		if s == "+lg" {
+			// second probe: "+lw" when, in addition, the width drawCell returns for a wide rune left of a locked cell does
+			// not depend on the cell being dirty (fixes/C13-locked-wide-walk.patch): an idle Show after the witness
+			// history of finding C13-locked-wide-walk writes no cell
+			tty := NewFakeTty(5, 1)
+			if scr, err := tcell.NewTerminfoScreenFromTtyTerminfo(tty, ti); err == nil && scr.Init() == nil {
+				scr.SetContent(1, 0, 0x754c, nil, tcell.StyleDefault)
+				scr.LockRegion(1, 0, 1, 1, true)
+				scr.SetContent(0, 0, 0x4e16, nil, tcell.StyleDefault)
+				scr.Show()
+				tty.TakeWrites()
+				scr.Show()
+				if out := string(joinBlocks(tty.TakeWrites())); !strings.Contains(out, " ") {
+					s = "+lw"
+				}
+				scr.Fini()
+			}
+		}
 	}
 	lockGuardVariant = &s
 	return s
@@ -97,6 +115,8 @@ func splitLockGuard(tok string) (name string, stale bool) {
 	name, flag := tok, ""
 	if i := strings.Index(name, "+lg"); i >= 0 {
 		name, flag = name[:i]+name[i+3:], "+lg"
+	} else if i := strings.Index(name, "+lw"); i >= 0 {
+		name, flag = name[:i]+name[i+3:], "+lw"
 	}
 	if i := strings.Index(name, "+fz"); i >= 0 { // Fill variant, see fillZWSuffix in cb.go
 		name, flag = name[:i]+name[i+3:], flag+"+fz"
@@ -105,8 +125,17 @@ func splitLockGuard(tok string) (name string, stale bool) {
 }
 
 // drawVariantSuffix: the flags the `draw` / `drawcp` / `modes` case lines carry after the entry name: `+lg` (locked-neighbour
-// guard in drawCell) then `+fz` (Fill stores width 0 for zero-width runes), each present when the tree under test has the repair.
+// guard in drawCell) then `+fz` (Fill stores a blank for zero-width runes), each present when the tree under test has the repair.
 func drawVariantSuffix() string { return lockGuardSuffix() + fillZWSuffix() }
+
+// withVariant appends the variant flags of the tree under test to an entry token, before any `@charset`:
+// `xterm-256color@ISO8859-1` -> `xterm-256color+lg+fz@ISO8859-1`.
+func withVariant(tok string) string {
+	if i := strings.Index(tok, "@"); i >= 0 {
+		return tok[:i] + drawVariantSuffix() + tok[i:]
+	}
+	return tok + drawVariantSuffix()
+}
 
 func ecmaEntries() []string {
 	var out []string
@@ -586,6 +615,12 @@ func execDraw(line string) (res h.Result) {
 						} else {
 							delete(sh.locked, [2]int{k, j})
 							sh.changed[[2]int{k, j}] = true
+							// an unlocked cell that holds a wide rune is repainted two columns wide: its right half is
+							// necessarily written again (the oracle used to flag that column: a false alarm of the
+							// machinery, found with the directed cases of genDrawLockedWide)
+							if widthOf(get(k, j).main) > 1 {
+								sh.changed[[2]int{k + 1, j}] = true
+							}
 							// an unlocked cell that is the right half of a wide rune is repainted through that rune
 							if k > 0 && widthOf(get(k-1, j).main) > 1 {
 								sh.changed[[2]int{k - 1, j}] = true
@@ -918,13 +953,37 @@ func genDrawMatrix(g *h.Gen) {
 			put(7, 4, 'z', StyleF{Fg: val(3), Bg: val(0), Url: "http://last"}) // the frame ends inside a hyperlink
 			ops = append(ops, "W", "S 0 0 98 - "+StyleF{Fg: val(2), Bg: val(0)}.String(), "W", "W")
 			ops = append(ops, fitOps(name, cols)...)
-			g.Emit("draw %s %d 8 5 %s", name, tc, strings.Join(ops, "; "))
+			g.Emit("draw %s %d 8 5 %s", withVariant(name), tc, strings.Join(ops, "; "))
+		}
+	}
+}
+
+// genDrawLockedWide: directed histories for the locked clause of C13 — a wide rune left of a locked cell that itself holds
+// a wide rune (or a narrow one), followed by idle Shows, an unlock and more Shows.  The loop of draw() skips by the width
+// drawCell returns; these cases make that width differ between the Show that paints the left rune and the idle ones.
+func genDrawLockedWide(g *h.Gen) {
+	for _, name := range []string{"xterm-256color", "linux", "sun-color"} {
+		for _, inner := range []int{30028, 98} { // what the locked cell holds: wide / narrow
+			for _, x := range []int{0, 1} {
+				ops := []string{
+					fmt.Sprintf("S %d 0 %d - 0,0,0,0,0,-,-", x+1, inner),
+					fmt.Sprintf("S %d 0 97 - 0,0,0,0,0,-,-", x+3),
+					"W",
+					fmt.Sprintf("L %d 0 1 1 1", x+1),
+					fmt.Sprintf("S %d 0 19990 - 0,0,0,0,0,-,-", x),
+					"W", "W", "W",
+					fmt.Sprintf("L %d 0 1 1 0", x+1),
+					"W", "W",
+				}
+				g.Emit("draw %s 1 6 2 %s", withVariant(name), strings.Join(ops, "; "))
+			}
 		}
 	}
 }
 
 func genDraw(g *h.Gen) {
 	genDrawMatrix(g)
+	genDrawLockedWide(g)
 	r := g.R
 	ents := ecmaEntries()
 	n := g.N(1200, 40000)
@@ -1026,7 +1085,7 @@ func genDraw(g *h.Gen) {
 		}
 		ops = append(ops, fitOps(name, cols)...)
 		w0, h0 := r.Range(2, 7), r.Range(1, 4)
-		g.Emit("draw %s%s %d %d %d %s", name, drawVariantSuffix(), r.Intn(2), w0, h0, strings.Join(ops, "; "))
+		g.Emit("draw %s %d %d %d %s", withVariant(name), r.Intn(2), w0, h0, strings.Join(ops, "; "))
 	}
 }
 
@@ -1048,7 +1107,7 @@ func genDrawCP(g *h.Gen) {
 			ops = append(ops, fmt.Sprintf("S 0 %d %d - 0,0,0,0,0,-,-", k, 0x10000+c), fmt.Sprintf("S 2 %d %d - 0,0,0,0,0,-,-", k, 0x20000+c),
 				fmt.Sprintf("S 4 %d %d - 0,0,0,0,0,-,-", k, c+0x100), "W", fmt.Sprintf("S 6 %d %d - 0,0,0,0,0,-,-", k, c), "W")
 		}
-		g.Emit("draw xterm-256color 0 8 4 %s", strings.Join(ops, "; "))
+		g.Emit("draw %s 0 8 4 %s", withVariant("xterm-256color"), strings.Join(ops, "; "))
 	}
 	var cps []int
 	if g.Thorough() {
@@ -1082,7 +1141,7 @@ func genDrawCP(g *h.Gen) {
 				ops = append(ops, fmt.Sprintf("S %d %d %d - 0,0,0,0,0,-,-", x, y, cps[i+k]))
 			}
 			ops = append(ops, "W")
-			g.Emit("draw %s 0 8 4 %s", tgt+drawVariantSuffix(), strings.Join(ops, "; "))
+			g.Emit("draw %s 0 8 4 %s", withVariant(tgt), strings.Join(ops, "; "))
 		}
 	}
 	// Fill as the supplier of primary content (CellBuffer.Fill gives every cell the rune with a width of its own choosing,
@@ -1106,7 +1165,7 @@ func genDrawCP(g *h.Gen) {
 	fcps = append(fcps, -1, -2, -0x80000000, 0x110000, 0x110001, 0x7fffffff)
 	for _, tgt := range []string{"xterm-256color", "xterm-256color@ISO8859-1"} {
 		for _, c := range fcps {
-			g.Emit("draw %s 0 3 1 F %d 0,0,0,0,0,-,-; W", tgt+drawVariantSuffix(), c)
+			g.Emit("draw %s 0 3 1 F %d 0,0,0,0,0,-,-; W", withVariant(tgt), c)
 		}
 	}
 	// combining lists in UTF-8 and in 8-bit locales, including charmaps that answer an unencodable rune with the SUB
@@ -1127,7 +1186,7 @@ func genDrawCP(g *h.Gen) {
 		k := 0
 		flush := func() {
 			if len(ops) > 0 {
-				g.Emit("draw %s 0 8 4 %s", tgt, strings.Join(append(ops, "W"), "; "))
+				g.Emit("draw %s 0 8 4 %s", withVariant(tgt), strings.Join(append(ops, "W"), "; "))
 			}
 			ops, k = nil, 0
 		}
